@@ -32,6 +32,8 @@ def plan(tier):
     p.rule_extra = ('Crash points are every position of the behaviour; torn records are cut at a position derived from the '
                     'step index; RealStartProbe clones the node directory and runs the real OnStart/receiveRoutine.')
     p.assumptions = ['process crash model: what was written before the kill is on disk (no power-loss reordering)']
+    # a height with more than ten scheduled timeouts in its WAL, then a REAL Start() on a copy of the directory
+    p.scenarios = list(p.scenarios) + ['many_rounds_then_restart']
     return p
 
 
